@@ -71,6 +71,20 @@ class TaskResult:
 
 
 def run_task(task, repo, use_cvc5=True, stop_on_refuted=False):
+    """runs one task; the model registries are restored afterwards (a task may install task-local library contracts, and
+    worker processes are reused)"""
+    from . import exec as _ex
+    saved = {n: dict(getattr(_ex, n)) for n in ("LIBS", "METHODS", "BUILTINS", "ATTRS")}
+    try:
+        return _run_task(task, repo, use_cvc5, stop_on_refuted)
+    finally:
+        for n, d in saved.items():
+            cur = getattr(_ex, n)
+            cur.clear()
+            cur.update(d)
+
+
+def _run_task(task, repo, use_cvc5=True, stop_on_refuted=False):
     res = TaskResult(task)
     t0 = time.time()
     ctx = Ctx()
